@@ -6,6 +6,58 @@ Open Scope string_scope.
 Open Scope list_scope.
 Open Scope N_scope.
 
+Section CV.
+Variable cv : variant.
+Local Notation is_simple_id := (SmtSer.is_simple_id cv) (only parsing).
+Local Notation escape_id := (SmtSer.escape_id cv) (only parsing).
+Local Notation ser := (SmtSer.ser cv) (only parsing).
+Local Notation ser_cmd := (SmtSer.ser_cmd cv) (only parsing).
+Local Notation name_ok := (SmtSer.name_ok cv) (only parsing).
+Local Notation declared := (SmtSer.declared cv) (only parsing).
+Local Notation symbols_declared := (SmtSer.symbols_declared cv) (only parsing).
+Local Notation lx_go := (SmtLex.lx_go cv) (only parsing).
+Local Notation lex_impl := (SmtLex.lex_impl cv) (only parsing).
+Local Notation early_other := (SmtParse.early_other cv) (only parsing).
+Local Notation early_parse := (SmtParse.early_parse cv) (only parsing).
+Local Notation step := (SmtParse.step cv) (only parsing).
+Local Notation run := (SmtParse.run cv) (only parsing).
+Local Notation parse_eot := (SmtParse.parse_eot cv) (only parsing).
+Local Notation parse_expr_internal := (SmtParse.parse_expr_internal cv) (only parsing).
+Local Notation parse_type := (SmtParse.parse_type cv) (only parsing).
+Local Notation parse_expr_toks := (SmtParse.parse_expr_toks cv) (only parsing).
+Local Notation parse_expr_str := (SmtParse.parse_expr_str cv) (only parsing).
+Local Notation skip_expr := (SmtParse.skip_expr cv) (only parsing).
+Local Notation parse_get_value_response_toks := (SmtParse.parse_get_value_response_toks cv) (only parsing).
+Local Notation parse_get_value_response_str := (SmtParse.parse_get_value_response_str cv) (only parsing).
+Local Notation parse_expr_list_go := (SmtParse.parse_expr_list_go cv) (only parsing).
+Local Notation parse_expr_list_rest := (SmtParse.parse_expr_list_rest cv) (only parsing).
+Local Notation parse_unsat_assumptions_toks := (SmtParse.parse_unsat_assumptions_toks cv) (only parsing).
+Local Notation parse_unsat_assumptions_str := (SmtParse.parse_unsat_assumptions_str cv) (only parsing).
+Local Notation parse_command_body := (SmtParse.parse_command_body cv) (only parsing).
+Local Notation parse_command_toks := (SmtParse.parse_command_toks cv) (only parsing).
+Local Notation parse_command_str := (SmtParse.parse_command_str cv) (only parsing).
+Local Notation count_parens := (SmtParse.count_parens cv) (only parsing).
+Local Notation rc_balance := (SmtParse.rc_balance cv) (only parsing).
+Local Notation read_command := (SmtParse.read_command cv) (only parsing).
+Local Notation is_simple_id_loop := (SmtSerLemmas.is_simple_id_loop cv) (only parsing).
+Local Notation is_simple_id_chars := (SmtSerLemmas.is_simple_id_chars cv) (only parsing).
+Local Notation is_simple_id_first := (SmtSerLemmas.is_simple_id_first cv) (only parsing).
+Local Notation escape_sound_gen := (SmtSerLemmas.escape_sound_gen cv) (only parsing).
+Local Notation escape_sound_lemma := (SmtSerLemmas.escape_sound_lemma cv) (only parsing).
+Local Notation good := (SmtSerProofs.good cv) (only parsing).
+Local Notation symbols_declared_app := (SmtSerProofs.symbols_declared_app cv) (only parsing).
+Local Notation name_ok_facts := (SmtSerProofs.name_ok_facts cv) (only parsing).
+Local Notation symbol_good := (SmtSerProofs.symbol_good cv) (only parsing).
+Local Notation ser_core := (SmtSerProofs.ser_core cv) (only parsing).
+Local Notation ser_eq := (SmtSerProofs.ser_eq cv) (only parsing).
+Local Notation core_good := (SmtSerProofs.core_good cv) (only parsing).
+Local Notation wrap_good_e := (SmtSerProofs.wrap_good_e cv) (only parsing).
+Local Notation ser_good := (SmtSerProofs.ser_good cv) (only parsing).
+Local Notation ser_sorted_sound_lemma := (SmtSerProofs.ser_sorted_sound_lemma cv) (only parsing).
+Local Notation name_ok_intro := (SmtSerProofs.name_ok_intro cv) (only parsing).
+Local Notation noop_slice_latent := (SmtSerProofs.noop_slice_latent cv) (only parsing).
+
+
 (** ** the machine on token sequences that come from S-expressions *)
 
 Definition toks_of_sx (t : sx) : list ltok := map ltok_of (flatten t).
@@ -36,7 +88,7 @@ Definition runs_to (st : nst) (ts : list ltok) (it : pitem) : Prop :=
 Lemma run_cons tok rest stk st it :
   step tok stk st false = POk (it :: stk, st, false) ->
   run (tok :: rest) stk st false = cont stk it st rest.
-Proof. intros H. cbn [run]. rewrite H. reflexivity. Qed.
+Proof. intros H. cbn [SmtParse.run]. rewrite H. reflexivity. Qed.
 
 Lemma cont_nonempty stk it st rest x : cont (x :: stk) it st rest = run rest (it :: x :: stk) st false.
 Proof. unfold cont. cbn [machine_done]. destruct it; reflexivity. Qed.
@@ -79,16 +131,16 @@ Lemma run_group st (items : list (list ltok * pitem)) r :
   runs_to st (TkOpen :: concat (map fst items) ++ [TkClose]) r.
 Proof.
   intros Hne Hall Hpat stk rest Hg.
-  cbn [app run]. 
+  cbn [app SmtParse.run]. 
   assert (Hs : step TkOpen stk st false = POk (IOpen false :: stk, st, false)).
-  { cbn [step]. destruct stk as [|[] ?]; try reflexivity; destruct Hg. }
+  { cbn [SmtParse.step]. destruct stk as [|[] ?]; try reflexivity; destruct Hg. }
   rewrite Hs. cbn [machine_done]. rewrite <- app_assoc.
   rewrite (run_items st items Hall (IOpen false :: stk) _); [| discriminate | exact I].
-  cbn [app run].
+  cbn [app SmtParse.run].
   assert (Hp : forallb plain_item (map snd items) = true).
   { clear -Hall. induction Hall as [| p l [_ Hp] _ IH]; [reflexivity|]. cbn [map forallb]. now rewrite Hp, IH. }
   assert (Hstep : step TkClose (rev (map snd items) ++ IOpen false :: stk) st false = POk (r :: stk, st, false)).
-  { cbn [step].
+  { cbn [SmtParse.step].
     destruct (rev (map snd items) ++ IOpen false :: stk) as [|top below] eqn:E.
     { destruct (rev (map snd items)); discriminate E. }
     assert (Htop : top <> ILetScopeOpenMissingClose).
@@ -169,14 +221,14 @@ Qed.
 (** single tokens *)
 Lemma runs_value st v it : early_parse (Some st) v = POk it -> runs_to st [TkValue v] it.
 Proof.
-  intros H stk rest Hg. cbn [app]. apply run_cons. cbn [step].
+  intros H stk rest Hg. cbn [app]. apply run_cons. cbn [SmtParse.step].
   assert (Hs : match stk with ILet 2 :: _ => None | _ => Some st end = Some st).
   { destruct stk as [|[] ?]; try reflexivity. destruct Hg. }
   rewrite Hs, H. reflexivity.
 Qed.
 
 Lemma runs_escaped st v e : lookup_sym st v = POk e -> runs_to st [TkEscaped v] (IExpr e).
-Proof. intros H stk rest Hg. cbn [app]. apply run_cons. cbn [step]. rewrite H. reflexivity. Qed.
+Proof. intros H stk rest Hg. cbn [app]. apply run_cons. cbn [SmtParse.step]. rewrite H. reflexivity. Qed.
 
 (** the item the machine computes for the tokens of an S-expression (no [let]) *)
 Definition atom_item (st : nst) (a : string) : pres pitem :=
@@ -276,14 +328,28 @@ Definition plain_value (v : string) : bool :=
   | _ => true
   end.
 
-Lemma early_plain st v : plain_value v = true ->
-  early_parse (Some st) v = POk (match nst_get st v with Some e => IExpr e | None => ISym v end).
+Lemma early_plain st x : plain_value x = true -> early_parse (Some st) x = early_other (Some st) x.
 Proof.
-  unfold plain_value, early_parse. destruct v as [|h [|k r]]; intros H.
-  - destruct (nst_get st ""); reflexivity.
-  - destruct (nst_get st (String h "")); reflexivity.
-  - rewrite !andb_true_iff, !negb_true_iff in H. destruct H as ((((((H1 & H2) & H3) & H4) & H5) & H6) & H7).
-    rewrite H1, H2, H3, H4, H5, H6, H7. destruct (nst_get st (String h (String k r))); reflexivity.
+  unfold plain_value, SmtParse.early_parse. destruct x as [|h [|k r]]; intros H; try reflexivity.
+  rewrite !andb_true_iff, !negb_true_iff in H. destruct H as ((((((H1 & H2) & H3) & H4) & H5) & H6) & H7).
+  now rewrite H1, H2, H3, H4, H5, H6, H7.
+Qed.
+
+(** a token that is looked up: in the repaired reader every token that is not a numeral, [_] or [as] *)
+Lemma early_other_lookup st x : (cv = Fix -> kw_tok x = false) ->
+  early_other (Some st) x = POk (match nst_get st x with Some e => IExpr e | None => ISym x end).
+Proof.
+  intros H. unfold SmtParse.early_other. destruct cv.
+  - destruct (nst_get st x); reflexivity.
+  - rewrite (H eq_refl). cbn [negb]. destruct (nst_get st x); reflexivity.
+Qed.
+
+Lemma early_other_kw st x : kw_tok x = true -> (cv = Cur -> nst_get st x = None) ->
+  early_other (Some st) x = POk (ISym x).
+Proof.
+  intros Hd H. unfold SmtParse.early_other. destruct cv.
+  - now rewrite (H eq_refl).
+  - now rewrite Hd.
 Qed.
 
 Lemma is_decimal_go_digits s b : str_forall is_dec_digit s = true -> is_decimal_go s b false = false.
@@ -322,7 +388,7 @@ Proof. all_ascii c; vm_compute; intros H H'; first [reflexivity | discriminate H
 Lemma simple_plain n : is_simple_id n = true -> name_ok n = true -> plain_value n = true.
 Proof.
   intros Hs Hn. unfold plain_value. destruct n as [|h [|k r]]; try reflexivity.
-  unfold is_simple_id in Hs. cbn [id_chars_ok] in Hs.
+  pose proof Hs as Hs0. destruct (is_simple_id_loop _ Hs) as [_ Hs']. clear Hs. rename Hs' into Hs. cbn [id_chars_ok] in Hs.
   destruct (id_char_ok h) eqn:Eh; cbn [negb] in Hs; [|discriminate].
   destruct (id_is_num h) eqn:En; cbn [andb] in Hs; [discriminate|].
   rewrite (id_char_not_hash h Eh). cbn [andb negb].
@@ -330,9 +396,9 @@ Proof.
   { unfold is_decimal. cbn [is_decimal_go]. rewrite (id_char_not_dot_digit h Eh En).
     destruct (Ascii.eqb h "."); reflexivity. }
   rewrite Hd. cbn [negb andb].
-  assert (X : forall lit, name_ok lit = false -> String.eqb (String h (String k r)) lit = false).
-  { intros lit Hl. destruct (String.eqb_spec (String h (String k r)) lit) as [<- | _]; [congruence | reflexivity]. }
-  rewrite !X; reflexivity.
+  assert (X : forall lit, name_ok lit = false \/ is_simple_id lit = false -> String.eqb (String h (String k r)) lit = false).
+  { intros lit Hl. destruct (String.eqb_spec (String h (String k r)) lit) as [<- | _]; [destruct Hl; congruence | reflexivity]. }
+  rewrite !X; first [reflexivity | destruct cv; first [left; reflexivity | right; reflexivity]].
 Qed.
 
 (** the symbol tables under which the writer's output is read *)
@@ -341,32 +407,68 @@ Definition sym_of (n : string) (t : ty) : expr :=
 
 Definition table_for (top : symtab) (e : expr) : Prop :=
   (forall n t, In (n, t) (symbols e) -> name_ok n = true /\ assoc_str n top = Some (sym_of n t)) /\
-  (forall n, name_ok n = false \/ all_digits n = true -> assoc_str n top = None).
+  (forall n, name_ok n = false \/ (cv = Cur /\ kw_tok n = true) -> assoc_str n top = None).
 
 Lemma nst_get_new top n : nst_get (nst_new top) n = assoc_str n top.
 Proof. reflexivity. Qed.
 
-Lemma atom_head st h : plain_value h = true -> name_ok h = false \/ all_digits h = true ->
-  (forall n, name_ok n = false \/ all_digits n = true -> nst_get st n = None) ->
+(** the keys of a symbol table never hide the reader's keywords; in the current code they must not be numerals,
+    [_] or [as] either *)
+Definition keys_ok (st : nst) : Prop :=
+  forall n, name_ok n = false \/ (cv = Cur /\ kw_tok n = true) -> nst_get st n = None.
+
+Lemma theory_not_ok h : is_theory_name h = true -> name_ok h = false.
+Proof.
+  intros H. unfold SmtSer.name_ok. destruct (symbol_name (escape_id h)); [|reflexivity].
+  rewrite H. cbn [orb negb]. now rewrite andb_false_r.
+Qed.
+
+(** tokens that the reader must see as keywords *)
+Definition head_kw (h : string) : bool := is_theory_name h || kw_tok h.
+
+Lemma atom_head st h : plain_value h = true -> head_kw h = true ->
+  keys_ok st ->
   match h with String c _ => Ascii.eqb c c_bar = false | EmptyString => True end ->
   atom_item st h = POk (ISym h).
 Proof.
-  intros Hp Hk Ht Hb. unfold atom_item, ltok_of_atom. destruct h as [|c r].
-  - rewrite early_plain by assumption. rewrite (Ht _ Hk). reflexivity.
-  - rewrite Hb. rewrite early_plain by assumption. rewrite (Ht _ Hk). reflexivity.
+  intros Hp Hk Ht Hb.
+  assert (E : early_parse (Some st) h = POk (ISym h)).
+  { rewrite early_plain by assumption. destruct (kw_tok h) eqn:Ed.
+    - apply early_other_kw; [assumption|]. intros Hc. apply Ht. right. now split.
+    - rewrite early_other_lookup by (intros _; exact Ed).
+      unfold head_kw in Hk. rewrite Ed, orb_false_r in Hk. rewrite (Ht h (or_introl (theory_not_ok h Hk))). reflexivity. }
+  unfold atom_item, ltok_of_atom. destruct h as [|c r]; [exact E|]. rewrite Hb. exact E.
+Qed.
+
+Lemma simple_not_kw n : is_simple_id n = true -> name_ok n = true -> (cv = Fix -> kw_tok n = false).
+Proof.
+  intros Hs Hn Hcv. destruct (is_simple_id_loop n Hs) as [Hne H]. destruct n as [|c r]; [congruence|].
+  unfold kw_tok.
+  assert (Hd : all_chars is_dec_digit (String c r) = false).
+  { cbn [id_chars_ok] in H. destruct (id_char_ok c); cbn [negb] in H; [|discriminate].
+    destruct (id_is_num c) eqn:En; cbn [andb] in H; [discriminate|].
+    unfold all_chars. cbn [str_forall]. rewrite id_num_digit in En. unfold is_dec_digit. unfold is_digit, cn in En. now rewrite En. }
+  rewrite Hd. cbn [orb].
+  (* in the repaired writer a simple identifier is not a reserved word *)
+  subst cv. pose proof (is_simple_id_fix_not_reserved _ Hs) as Hr.
+  destruct (String.eqb_spec (String c r) "_") as [E | _]; [rewrite E in Hr; discriminate Hr|].
+  destruct (String.eqb_spec (String c r) "as") as [E | _]; [rewrite E in Hr; discriminate Hr | reflexivity].
 Qed.
 
 Lemma atom_symbol st n e :
   name_ok n = true -> nst_get st n = Some e ->
   atom_item st (escape_id n) = POk (IExpr e).
 Proof.
-  intros Hn Ha. destruct (name_ok_facts n Hn) as (Hs & _). unfold escape_id in *.
+  intros Hn Ha. destruct (name_ok_facts n Hn) as (Hs & _). unfold SmtSer.escape_id in *.
   destruct (is_simple_id n) eqn:Es.
   - unfold atom_item, ltok_of_atom. destruct n as [|c r]; [discriminate|].
     rewrite (is_simple_id_first _ c r eq_refl Es).
-    rewrite early_plain by (now apply simple_plain). now rewrite Ha.
+    rewrite early_plain by (now apply simple_plain).
+    rewrite early_other_lookup by (now apply simple_not_kw). now rewrite Ha.
   - unfold atom_item. change (String.append "|" (String.append n "|")) with (String c_bar (String.append n "|")) in *.
     unfold ltok_of_atom. change (Ascii.eqb c_bar c_bar) with true. cbv iota.
     unfold symbol_name in Hs. change (Ascii.eqb c_bar c_bar) with true in Hs. cbv iota in Hs. rewrite Hs.
     unfold lookup_sym. now rewrite Ha.
 Qed.
+
+End CV.
